@@ -82,6 +82,9 @@ B("B60", "C14-R1", [(SD, '''            # Attractor data computed while the node
 B("B61", "C14-R1", [(SCC, '''    if not sd.node_data(attach_at)["expanded"] or sd.node_data(attach_at)["skipped"]:
         # Data computed''', '''    if sd.node_data(attach_at)["expanded"]:
         # Data computed''')], "attach: reset guarded by the wrong polarity")
+B("B322", ["C03-K"], [("biobalm/_sd_algorithms/expand_minimal_spaces.py", """            if is_subspace(m_trap, sd.node_data(node_id)["space"]):""",
+                       """            if m_trap is not None:""")],
+  "make_skip_node: skip edges to every minimal trap space of the network, also those outside the node (mutation sweep 3)")
 B("B321", ["C03-G"], [("biobalm/_sd_algorithms/expand_attractor_seeds.py", """        if len(successors) == 0:
             # Everything is done for this `node` and we can continue to the next one.""", """        if len(successors) >= 0 or True:
             # Everything is done for this `node` and we can continue to the next one.""")],
